@@ -93,6 +93,38 @@ def test_detect(inp):
     return None
 
 
+def gen_constructed(tier, seed):
+    for k, v in enumerate(VARIANTS):
+        for how in ('ShocStandard', 'ArakawaC'):
+            yield {'variant': k, 'name': v[0], 'how': how}
+
+
+def test_constructed(inp):
+    """a convention constructed by hand on another dataset, with coordinate names of its own, between two detections changes nothing"""
+    from emsarray.conventions.arakawa_c import ArakawaC, ArakawaCGridKind
+    from emsarray.conventions.shoc import ShocStandard
+    name, spec, mods, want = VARIANTS[inp['variant']]
+    first = must(lambda: emsarray.get_dataset_convention(build(spec, mods)), 'get_dataset_convention')
+    defaults = dict(ShocStandard.coordinate_names)
+    other = datasets.shoc_standard(2, 3).rename({'x_grid': 'x_node', 'y_grid': 'y_node'})
+    names = {'face': ('y_centre', 'x_centre'), 'left': ('y_left', 'x_left'), 'back': ('y_back', 'x_back'), 'node': ('y_node', 'x_node')}
+    klass = ShocStandard if inp['how'] == 'ShocStandard' else ArakawaC
+    try:
+        conv = must(lambda: klass(other, coordinate_names={ArakawaCGridKind(k): v for k, v in names.items()}), f'{inp["how"]}(other, coordinate_names=...)')
+        if tuple(conv.coordinate_names[ArakawaCGridKind.node]) != ('y_node', 'x_node'):
+            return 'the constructed convention does not use the names it was given'
+        second = must(lambda: emsarray.get_dataset_convention(build(spec, mods)), 'get_dataset_convention afterwards')
+        if second is not first:
+            return f'{name}: detected {getattr(first, "__name__", None)} before and {getattr(second, "__name__", None)} after constructing {inp["how"]}(other dataset, coordinate_names=...)'
+        if dict(ShocStandard.coordinate_names) != defaults:
+            return 'the class-level default coordinate names of ShocStandard were modified by constructing an object'
+    finally:
+        if dict(ShocStandard.coordinate_names) != defaults:       # keep the later cases of this process independent of this one
+            ShocStandard.coordinate_names.clear()
+            ShocStandard.coordinate_names.update(defaults)
+    return None
+
+
 def make_toy(name, result):
     return type(name, (Convention,), {'check_dataset': classmethod(lambda cls, dataset: result),
                                       '__abstractmethods__': frozenset()})
@@ -197,6 +229,9 @@ CHECKS = [
     Check('detection', gen_detect, test_detect, key=lambda i, d: f"detection:{i['name']}",
           space='datasets of each convention and near-misses (one distinguishing attribute / variable removed or altered)',
           bound=f'{len(VARIANTS)} structural variants', exhaustive=True),
+    Check('constructed_before', gen_constructed, test_constructed, key=lambda i, d: f"constructed:{i['name']}",
+          space='every structural variant x a ShocStandard / ArakawaC object constructed by hand on another dataset with its own coordinate names between two detections',
+          bound=f'{2 * len(VARIANTS)} cases', exhaustive=True),
     Check('registration', gen_reg, test_reg, key=lambda i, d: 'registration-order',
           space='4 datasets x two toy conventions with specificity {None, LOW, HIGH} x both registration orders',
           bound='72 cases', exhaustive=True),
